@@ -64,6 +64,10 @@ var specialStrings = []string{"", "plain", "with \"quotes\" and \\backslash", "c
 	// text that LOOKS like the escapes a JSON encoder emits (a regular expression, a Windows path): it is data
 	`^\u003cdiv\u003e \u0026 \n \"`, `C:\users\u2028`}
 
+type rawHolder struct {
+	Raw json.RawMessage
+}
+
 // genValue returns a value and whether encoding/json can encode it.
 func genValue(d *drawRec, depth int) (interface{}, bool) {
 	k := d.next(16)
@@ -83,17 +87,26 @@ func genValue(d *drawRec, depth int) (interface{}, bool) {
 		return specialStrings[d.next(len(specialStrings))], true
 	case 5:
 		// unsupported kinds
-		switch d.next(4) {
+		switch d.next(6) {
 		case 0:
 			return math.NaN(), false
 		case 1:
 			return math.Inf(1), false
 		case 2:
 			return make(chan int), false
+		case 4:
+			// pre-encoded JSON that is not JSON: the encoder validates raw messages
+			return json.RawMessage([]string{`{"a":`, `1} , "x":{`, ``, `{"a":1}{"b":2}`}[d.next(4)]), false
+		case 5:
+			return rawHolder{Raw: json.RawMessage(`[1, 2`)}, false
 		default:
 			return func() {}, false
 		}
 	case 6:
+		if d.next(3) == 0 {
+			// pre-encoded JSON, valid but laid out over several lines: the encoder compacts raw messages
+			return json.RawMessage("{\n  \"a\": [1, 2,\n    3],\n  \"b\": \"x y\"\n}"), true
+		}
 		return []byte(specialStrings[d.next(len(specialStrings))]), true
 	case 7:
 		n := d.next(4)
@@ -722,6 +735,20 @@ type ceWithBoth struct {
 func (p *ceWithBoth) ID() string        { return p.id }
 func (p *ceWithBoth) Data() interface{} { return p.data }
 
+// ceOneShot renders itself once per Process call; the harness re-arms it before each call.
+type ceOneShot struct {
+	N     int
+	calls int
+}
+
+func (p *ceOneShot) MarshalJSON() ([]byte, error) {
+	p.calls++
+	if p.calls > 1 {
+		return nil, errors.New("read on closed body: the payload's data was a one-shot stream")
+	}
+	return []byte(fmt.Sprintf(`{"one_shot":%d}`, p.N)), nil
+}
+
 // sigTails: a signature is an opaque string; separators below 0x20, quotes and backslashes are legal in it.
 var sigTails = []string{"", "", "\x1fkeyid", "\x00", "\"q\\", "\x7f\n"}
 
@@ -867,9 +894,14 @@ func runCloudEvents(rc *RunCtx) {
 			var payload interface{}
 			var wantData interface{}
 			wantID := ""
-			kind := tp.Choose(7, "payload")
+			kind := tp.Choose(8, "payload")
 			dataMustBeAbsent := false
+			var oneShot *ceOneShot
 			switch kind {
+			case 7:
+				// data that can be rendered once per Process call (backed by a stream): a second rendering fails
+				oneShot = &ceOneShot{N: i}
+				payload, wantData = oneShot, map[string]interface{}{"one_shot": i}
 			case 0:
 				payload, wantData = base, base
 			case 1:
@@ -961,6 +993,12 @@ func runCloudEvents(rc *RunCtx) {
 			}
 			mustSign := hasSigner && (typ == "signed-type" || typ == "other-signed" || typ == "audit-*")
 			signerFailed := mustSign && failAt[signBefore+1]
+			if mustSign && oneShot != nil && !signerFailed {
+				// the signed document needs a second rendering of the payload, which fails: no signed document
+				// can be made, so nothing may be forwarded (an unsigned or empty document least of all)
+				signerFailed = true
+				simrt.Probe("ce.second-rendering-failed")
+			}
 			if signerFailed {
 				simrt.Probe("ce.signer-failed")
 				if out != nil || err == nil {
